@@ -1392,7 +1392,7 @@ Section QStep.
     | _ => True
     end.
   Proof.
-    intros H Hy. destruct o as [t|t|td ts|td ts|t|t|t|s rk body refs|s rk|sn so|sn so|sd ss|sd ss|s arg catch|s b|s|s|s|g k|gn go|gn go|gd gs|gd gs|g|g s c front mv|g arg catch|g|g b|g|s g|c|cn co|cd cs|c|c b|c|c|k c|k|k c|kn ko|kd ks|k1 k2|k c|k|k b|k|k| | ]; try exact I; cbn [step].
+    intros H Hy. destruct o as [t|t|td ts|td ts|t|t|t|s rk body refs|s rk|sn so|sn so|sd ss|sd ss|s arg catch|s b|s|s|s|g k|gn go|gn go|gd gs|gd gs|g|g|g|g s c front mv|g arg catch|g|g b|g|s g|c|cn co|cd cs|c|c b|c|c|k c|k|k c|kn ko|kd ks|k1 k2|k c|k|k b|k|k| | ]; try exact I; cbn [step].
     - destruct (fresh_track t st && N.ltb t 1000); [|apply skip_y; exact Hy].
       cbn [out_y]. eapply Y_lite; [|exact Hy]. repeat split.
     - destruct (live_track t st); [|apply skip_y; exact Hy].
@@ -1423,7 +1423,7 @@ Section QStep.
     | _ => True
     end.
   Proof.
-    intros H Hy. pose proof (wf_c _ H) as Hc. destruct o as [t|t|td ts|td ts|t|t|t|s rk body refs|s rk|sn so|sn so|sd ss|sd ss|s arg catch|s b|s|s|s|g k|gn go|gn go|gd gs|gd gs|g|g s c front mv|g arg catch|g|g b|g|s g|c|cn co|cd cs|c|c b|c|c|k c|k|k c|kn ko|kd ks|k1 k2|k c|k|k b|k|k| | ]; try exact I; cbn [step].
+    intros H Hy. pose proof (wf_c _ H) as Hc. destruct o as [t|t|td ts|td ts|t|t|t|s rk body refs|s rk|sn so|sn so|sd ss|sd ss|s arg catch|s b|s|s|s|g k|gn go|gn go|gd gs|gd gs|g|g|g|g s c front mv|g arg catch|g|g b|g|s g|c|cn co|cd cs|c|c b|c|c|k c|k|k c|kn ko|kd ks|k1 k2|k c|k|k b|k|k| | ]; try exact I; cbn [step].
     - (* OSNew *)
       destruct (fresh_slot s st && _ && _); [|apply skip_y; exact Hy].
       destruct (bind_all (next_rid st) refs (with_next_rid (next_rid st + 1) st)) as [st2|] eqn:E; [|exact I].
@@ -1486,14 +1486,45 @@ Section QStep2.
   Hypothesis rec_ok : forall c st, WF st -> out_ok st (rec c st).
   Hypothesis rec_y : forall c st, WF st -> QY st -> out_y (rec c st).
 
+  Lemma sig_destroy_y g go st st' : WF st -> QY st -> live_sig g st = Some go ->
+    sig_destroy g go st = Ok st' -> QY st'.
+  Proof.
+    intros H Hy Hl E. unfold sig_destroy in E.
+    assert (Hmid : exists st1, (if gk_track (g_kind go)
+                    then st1 <- track_notify (trackable_of_sig g) st ;;
+                         Ok (with_tracks (aset (trackable_of_sig g) None (tracks st1)) st1)
+                    else Ok st) = Ok st1 /\ Guar st (with_sigs (aset g None (sigs st1)) st1) /\ QY st1 /\ sigs st1 = sigs st).
+    { destruct (gk_track (g_kind go)) eqn:Hk.
+      - destruct (track_notify_G (trackable_of_sig g) st H) as (sta & E1 & G & C & D). rewrite E1. cbn [rbind].
+        eexists. split; [reflexivity|]. split; [|split].
+        + eapply Guar_trans; [exact G|].
+          assert (Hla : live_sig g sta = Some go) by (unfold live_sig; rewrite (ca_sigs _ _ C); exact Hl).
+          pose proof (del_sig_G g go sta (proj1 G) Hla (fun _ => D)) as Z. rewrite Hk in Z. exact Z.
+        + eapply Y_lite; [|eapply track_notify_y; eauto]. repeat split.
+        + cbn [sigs with_tracks]. exact (ca_sigs _ _ C).
+      - eexists. split; [reflexivity|]. split; [|split; [exact Hy|reflexivity]].
+        pose proof (del_sig_G g go st H Hl) as Z. rewrite Hk in Z. apply Z. discriminate. }
+    destruct Hmid as (st1 & E1 & G2 & Y1 & Es). rewrite E1 in E. cbn [rbind] in E.
+    assert (Hl1 : live_sig g st1 = Some go) by (unfold live_sig; rewrite Es; exact Hl).
+    set (st2 := with_sigs (aset g None (sigs st1)) st1) in *.
+    assert (X2 : QX st2) by (apply X_with_sigs; exact (proj1 Y1)).
+    destruct (g_impl go) as [i|] eqn:Hgi.
+    + apply (release_check_y i st2 st' (wf_c _ (proj1 G2)) X2); [|exact E].
+      apply OwnP_aset_sig; [apply Own_OwnP; exact (proj2 Y1)|].
+      intros j Hj. fold (oldsig g st1). rewrite (live_sig_old _ _ _ Hl1). intro Z. apply sigref_some in Z. congruence.
+    + inversion E; subst st'. split; [exact X2|]. apply OwnP_Own.
+      apply OwnP_aset_sig; [apply Own_OwnP; exact (proj2 Y1)|].
+      intros j _. fold (oldsig g st1). rewrite (live_sig_old _ _ _ Hl1). intro Z. apply sigref_some in Z. congruence.
+  Qed.
+
   Lemma step_sig_y o st : WF st -> QY st ->
     match o with
-    | OGNew _ _ | OGCopy _ _ | OGMove _ _ | OGAssign _ _ | OGMoveAssign _ _ | OGDel _
+    | OGNew _ _ | OGCopy _ _ | OGMove _ _ | OGAssign _ _ | OGMoveAssign _ _ | OGShare _ | OGRelease _ | OGDel _
     | OGEmit _ _ _ | OGClear _ | OGBlock _ _ | OGQuery _ | OGMakeSlot _ _ => out_y (step prog rec o st)
     | _ => True
     end.
   Proof.
-    intros H Hy. pose proof (wf_c _ H) as Hc. destruct o as [t|t|td ts|td ts|t|t|t|s rk body refs|s rk|sn so|sn so|sd ss|sd ss|s arg catch|s b|s|s|s|g k|gn go|gn go|gd gs|gd gs|g|g s c front mv|g arg catch|g|g b|g|s g|c|cn co|cd cs|c|c b|c|c|k c|k|k c|kn ko|kd ks|k1 k2|k c|k|k b|k|k| | ]; try exact I; cbn [step].
+    intros H Hy. pose proof (wf_c _ H) as Hc. destruct o as [t|t|td ts|td ts|t|t|t|s rk body refs|s rk|sn so|sn so|sd ss|sd ss|s arg catch|s b|s|s|s|g k|gn go|gn go|gd gs|gd gs|g|g|g|g s c front mv|g arg catch|g|g b|g|s g|c|cn co|cd cs|c|c b|c|c|k c|k|k c|kn ko|kd ks|k1 k2|k c|k|k b|k|k| | ]; try exact I; cbn [step].
     - (* OGNew *)
       unfold fresh_sig. destruct (aget g (sigs st)) eqn:Hf; cbn [andb]; [apply skip_y; exact Hy|].
       destruct (negb (gk_track k) || fresh_track (trackable_of_sig g) st); [|apply skip_y; exact Hy].
@@ -1631,34 +1662,18 @@ Section QStep2.
       destruct (gk_track (g_kind src) && _).
       + apply liftu_y. intros st' E. eapply track_notify_y; [exact (proj1 G2)|exact Y2|exact E].
       + exact Y2.
+    - (* OGShare *)
+      destruct (live_sig g st) as [go|]; [|apply skip_y; exact Hy].
+      destruct (negb (is_shared (sig_key g) st) && N.ltb g 1000); [|apply skip_y; exact Hy].
+      cbn [out_y]. eapply Y_lite; [|exact Hy]. repeat split.
+    - (* OGRelease *)
+      destruct (live_sig g st) as [go|]; [|apply skip_y; exact Hy].
+      destruct (is_shared (sig_key g) st && negb (is_released (sig_key g) st)); [|apply skip_y; exact Hy].
+      cbn [out_y]. eapply Y_lite; [|exact Hy]. repeat split.
     - (* OGDel *)
       destruct (live_sig g st) as [go|] eqn:Hl; [|apply skip_y; exact Hy].
-      apply liftu_y. intros st' E. unfold sig_destroy in E.
-      assert (Hmid : exists st1, (if gk_track (g_kind go)
-                      then st1 <- track_notify (trackable_of_sig g) st ;;
-                           Ok (with_tracks (aset (trackable_of_sig g) None (tracks st1)) st1)
-                      else Ok st) = Ok st1 /\ Guar st (with_sigs (aset g None (sigs st1)) st1) /\ QY st1 /\ sigs st1 = sigs st).
-      { destruct (gk_track (g_kind go)) eqn:Hk.
-        - destruct (track_notify_G (trackable_of_sig g) st H) as (sta & E1 & G & C & D). rewrite E1. cbn [rbind].
-          eexists. split; [reflexivity|]. split; [|split].
-          + eapply Guar_trans; [exact G|].
-            assert (Hla : live_sig g sta = Some go) by (unfold live_sig; rewrite (ca_sigs _ _ C); exact Hl).
-            pose proof (del_sig_G g go sta (proj1 G) Hla (fun _ => D)) as Z. rewrite Hk in Z. exact Z.
-          + eapply Y_lite; [|eapply track_notify_y; eauto]. repeat split.
-          + cbn [sigs with_tracks]. exact (ca_sigs _ _ C).
-        - eexists. split; [reflexivity|]. split; [|split; [exact Hy|reflexivity]].
-          pose proof (del_sig_G g go st H Hl) as Z. rewrite Hk in Z. apply Z. discriminate. }
-      destruct Hmid as (st1 & E1 & G2 & Y1 & Es). rewrite E1 in E. cbn [rbind] in E.
-      assert (Hl1 : live_sig g st1 = Some go) by (unfold live_sig; rewrite Es; exact Hl).
-      set (st2 := with_sigs (aset g None (sigs st1)) st1) in *.
-      assert (X2 : QX st2) by (apply X_with_sigs; exact (proj1 Y1)).
-      destruct (g_impl go) as [i|] eqn:Hgi.
-      + apply (release_check_y i st2 st' (wf_c _ (proj1 G2)) X2); [|exact E].
-        apply OwnP_aset_sig; [apply Own_OwnP; exact (proj2 Y1)|].
-        intros j Hj. fold (oldsig g st1). rewrite (live_sig_old _ _ _ Hl1). intro Z. apply sigref_some in Z. congruence.
-      + inversion E; subst st'. split; [exact X2|]. apply OwnP_Own.
-        apply OwnP_aset_sig; [apply Own_OwnP; exact (proj2 Y1)|].
-        intros j _. fold (oldsig g st1). rewrite (live_sig_old _ _ _ Hl1). intro Z. apply sigref_some in Z. congruence.
+      destruct (negb (is_shared (sig_key g) st)); [|apply skip_y; exact Hy].
+      apply liftu_y. intros st' E. eapply sig_destroy_y; eauto.
     - (* OGEmit *)
       destruct (live_sig g st) as [go|]; [|apply skip_y; exact Hy].
       pose proof (emit_sig_y prog rec rec_ok rec_y g arg st H Hy) as Z.
@@ -1707,7 +1722,7 @@ Section QStep3.
     | _ => True
     end.
   Proof.
-    intros H Hy. pose proof (wf_c _ H) as Hc. destruct o as [t|t|td ts|td ts|t|t|t|s rk body refs|s rk|sn so|sn so|sd ss|sd ss|s arg catch|s b|s|s|s|g k|gn go|gn go|gd gs|gd gs|g|g s c front mv|g arg catch|g|g b|g|s g|c|cn co|cd cs|c|c b|c|c|k c|k|k c|kn ko|kd ks|k1 k2|k c|k|k b|k|k| | ]; try exact I; cbn [step].
+    intros H Hy. pose proof (wf_c _ H) as Hc. destruct o as [t|t|td ts|td ts|t|t|t|s rk body refs|s rk|sn so|sn so|sd ss|sd ss|s arg catch|s b|s|s|s|g k|gn go|gn go|gd gs|gd gs|g|g|g|g s c front mv|g arg catch|g|g b|g|s g|c|cn co|cd cs|c|c b|c|c|k c|k|k c|kn ko|kd ks|k1 k2|k c|k|k b|k|k| | ]; try exact I; cbn [step].
     - (* OCEmpty *)
       destruct (fresh_conn c st); [|apply skip_y; exact Hy]. cbn [out_y]. eapply Y_lite; [apply set_connptr_lite|exact Hy].
     - (* OCCopy *)
@@ -1824,10 +1839,15 @@ Section QStep3.
     - destruct (find_orphan prog (shared st) st); [discriminate|]. intro E. inversion E; subst. exact Hy.
     - destruct (find_orphan prog (shared st) st) as [t|] eqn:Hfo; [|intro E; inversion E; subst; exact Hy].
       destruct (find_orphan_spec _ _ _ _ Hfo) as (rel & Hin & Hlive).
-      assert (Ht : t < 1000).
+      assert (Hk : shkey t).
       { pose proof (wf_shared _ H) as F. unfold shared_ok in F. rewrite Forall_forall in F. exact (F (t, rel) Hin). }
-      destruct (del_user_track_G t st H Ht) as (st1 & E & C & G). rewrite E. cbn [rbind].
-      apply (IH _ _ (proj1 G)). eapply Y_lite; [|eapply track_notify_y; eauto]. repeat split.
+      destruct (N.leb_spec 2000 t) as [Hge|Hlt].
+      + destruct (live_sig (t - 2000) st) as [go|] eqn:Hl; [|discriminate].
+        destruct (sig_destroy_G (t - 2000) go st H Hl) as (st1 & E & G). rewrite E. cbn [rbind].
+        apply (IH _ _ (proj1 G)). eapply sig_destroy_y; eauto.
+      + assert (Ht : t < 1000) by (destruct Hk as [|[]]; [assumption|lia]).
+        destruct (del_user_track_G t st H Ht) as (st1 & E & C & G). rewrite E. cbn [rbind].
+        apply (IH _ _ (proj1 G)). eapply Y_lite; [|eapply track_notify_y; eauto]. repeat split.
   Qed.
 
   Lemma gc_shared_y st st' : WF st -> QY st -> gc_shared prog st = Ok st' -> QY st'.
